@@ -315,6 +315,9 @@ func c08Values() []dec.D {
 		}{{5, -1}, {1, 0}, {100, -2}, {7, 0}, {8, 0}, {25, -1}, {1, 1}, {3, 2}, {70, -1}, {12345, -2}} {
 			vs = append(vs, dec.D{Form: dec.Finite, Neg: neg, C: big.NewInt(f.c), E: f.e})
 		}
+		// NaNs made out of an existing value (the Form was changed by hand): the
+		// exponent field and the coefficient are still there and mean nothing
+		vs = append(vs, dec.D{Form: dec.SNaN, Neg: neg, C: big.NewInt(12), E: 3}, dec.D{Form: dec.NaN, Neg: neg, C: big.NewInt(7), E: -2})
 		// one, written with more digits than the power-of-ten table has entries
 		// (the 150-digit quotient 7/7): where x is compared with 1, its length must not matter
 		vs = append(vs, dec.D{Form: dec.Finite, Neg: neg, C: new(big.Int).Set(dec.Pow10(150)), E: -150})
